@@ -82,6 +82,7 @@ def run(run, replay=None):
     pool = [c for c in cases if c['kind'] == 'file' and len(c['tokens']) > 4]
     for k, c in enumerate(rng.sample(pool, 8)):
         z = copy.deepcopy(c)
+        z['canary_of'] = z['id']
         z['id'] = 'canary-%d' % k
         if k % 2:
             z['tokens'].pop(rng.randrange(len(z['tokens'])))
